@@ -25,8 +25,8 @@ CLASSES = ["OFX", "SIGNONMSGSRQV1", "SONRQ", "FI", "BANKMSGSRQV1", "CREDITCARDMS
 
 def ct(s):
     """Coq `text` literal; printable ASCII as (T "...") (fast to parse), anything else as a list of code points."""
-    if all(32 <= ord(c) <= 126 for c in s):
-        return '(T "%s")' % s.replace('"', '""')
+    if all(32 <= ord(c) <= 126 and c != '"' for c in s):     # no '"': common.coq_bad_indices interns "..." literals by a simple pattern
+        return '(T "%s")' % s
     return "[" + ";".join("%d" % ord(c) for c in s) + "]"
 
 
